@@ -46,6 +46,11 @@ EvenFamilies == {[a \in 1..3 |-> IF a = ax THEN <<(EvenPlants2[p][ax] + k) \div 
                     ax \in 1..3, p \in {1, 2}, k \in {-3, -1, 1, 3}}
                 \cup {<<<<12, 12, 16>>, <<10, 11, 23>>, <<14, 20, 14>>>>, <<<<13, 11, 16>>, <<44>>, <<34, 14>>>>}
 EmitEven == (done /\ cfg.n = 6 /\ cfg.d = 1) => \A f \in EvenFamilies : PrintT(ToJson([even |-> TRUE, extents |-> Extents, chunks |-> f, plants2 |-> EvenPlants2]))
+(* side maxima: with a margin mg every side maximum within r <= mg of its main peak is suppressed under every chunking; for r > mg
+   some chunking reports it (the unchanged code has mg = 1 whatever min_distance is: the known finding) *)
+SideMaxima == \A mg \in 1..3, r \in 1..4 : \A c \in PartsOk(cfg.n, cfg.d) :
+     LET allsup == \A x \in 0..(cfg.n - 1), y \in 0..(cfg.n - 1) : (x # y /\ x - y <= r /\ y - x <= r) => SideSuppressed(c, mg, x, y)
+     IN (r <= mg => allsup) /\ ((r > mg /\ Len(c) > 1 /\ \A i \in 1..Len(c) : c[i] > r) => ~allsup)
 SlabExtents == <<4, 44, 48>>
 SlabFamilies == {<<<<4>>, <<44>>, <<48>>>>, <<<<4>>, <<22, 22>>, <<24, 24>>>>, <<<<2, 2>>, <<44>>, <<16, 16, 16>>>>}
 BallNotCube == \A r10 \in {10, 16, 25, 40, 60} : CornerOffset(r10) \in DiagonalOffsets(r10) /\ ~InBall(CornerOffset(r10), r10)
